@@ -1,0 +1,29 @@
+//go:build verif
+
+/*
+ Copyright (c) Facebook, Inc. and its affiliates.
+
+ This source code is licensed under the MIT license found in the
+ LICENSE file in the root directory of this source tree.
+*/
+
+package fsnotify
+
+import (
+	"fmt"
+
+	"github.com/fsnotify/fsnotify"
+)
+
+// StartWithEvents is Load without the operating system's notification source: the
+// initial load of path, then the unchanged watch loop, fed from the given channels
+// instead of an inotify watch on the file's directory.  It exists for simulation only
+// (build tag verif).
+func (w *Watcher) StartWithEvents(path string, events chan fsnotify.Event, errs chan error) error {
+	if err := w.loader.Load(path); err != nil {
+		return fmt.Errorf("loader failed: %v", err)
+	}
+	w.watchman = &fsnotify.Watcher{Events: events, Errors: errs}
+	go w.watch(path)
+	return nil
+}
